@@ -400,6 +400,44 @@ def _selects_odd_blocks(s2n, first):
         not any(isinstance(x, ast.Name) and x.id == bind[par] for x in ast.walk(v.elt))
 
 
+def flag_vector_rule(chk, rule, msg_extra=""):
+    """The flag vector handed to the two memoised sign computations of swap_gate has ONE encoding: a boolean mask with one entry per
+    symmetry component (all True for fermionic=True, the configured tuple otherwise).  Necessary for C05 (which components count) and
+    for C16: the flag vector is part of the lru_cache key, and an index encoding (0, 1) compares equal to the mask (False, True)."""
+    sg = chk.prog.func(CON, "swap_gate")
+    # flag vector at the call sites of the two meta functions
+    # the flag vector handed to the sign computations: all-True for fermionic=True, else the configured tuple
+    mcalls = [c for c in A.calls(sg.node) if A.call_name(c) in ("_meta_swap_gate", "_meta_swap_gate_charge")]
+    chk.require(len(mcalls) == 2, "swap_gate: calls of _meta_swap_gate / _meta_swap_gate_charge not found")
+    flag_names = {A.text(c.args[-1]) for c in mcalls}
+    chk.verdict(rule, (sg, mcalls[0]), "both sign computations receive one flag vector as last argument", True if len(flag_names) == 1 and
+                all(isinstance(c.args[-1], ast.Name) for c in mcalls) else False, "swap_gate does not pass one and the same flag vector to both sign computations")
+    fname = sorted(flag_names)[0]
+    cd = A.cond_def(sg.node, fname)
+    chk.require(cd is not None, f"swap_gate: two-way definition of the flag vector `{fname}` not found")
+    fss_def = [cd[3]]
+    ok = False
+    if cd is not None:
+        class _V:  # same shape as an ast.IfExp
+            test, body, orelse = cd[0], cd[1], cd[2]
+        v = _V
+        t = v.test
+        is_true = isinstance(t, ast.Compare) and len(t.ops) == 1 and isinstance(t.ops[0], (ast.Is, ast.Eq)) and A.text(t.left).endswith(".config.fermionic") \
+            and isinstance(t.comparators[0], ast.Constant) and t.comparators[0].value is True
+        body, other = v.body, v.orelse
+
+        def all_true(b_):
+            if isinstance(b_, ast.BinOp) and isinstance(b_.op, ast.Mult):
+                for tup, cnt in ((b_.left, b_.right), (b_.right, b_.left)):
+                    if isinstance(tup, ast.Tuple) and len(tup.elts) == 1 and isinstance(tup.elts[0], ast.Constant) and tup.elts[0].value is True \
+                            and A.text(cnt) in ("nsym", "a.config.sym.NSYM", f"{sg.params[0]}.config.sym.NSYM"):
+                        return True
+            return False
+        ok = is_true and all_true(body) and A.text(other).endswith(".config.fermionic")
+    chk.verdict(rule, (sg, fss_def[0]), fss_def[0], True if ok else False,
+                "swap_gate: the flag vector must be all-True (one entry per symmetry component) for fermionic=True and the configured tuple otherwise" + msg_extra)
+
+
 def run(chk):
     prog = chk.prog
     chk.explanation = (
@@ -492,37 +530,7 @@ def run(chk):
             two, par = (v.right.left, v.right.right) if A.neg_const(v.right.left) == 2 else (v.right.right, v.right.left)
             ok = A.neg_const(two) == 2 and isinstance(par, ast.BinOp) and isinstance(par.op, ast.Mod) and A.neg_const(par.right) == 2
         chk.verdict("W2", (sc, r), r.value, True if ok else False, "swap_charges: the sign is not 1 - 2*(parity % 2)")
-    # flag vector at the call sites of the two meta functions
-    # the flag vector handed to the sign computations: all-True for fermionic=True, else the configured tuple
-    mcalls = [c for c in A.calls(sg.node) if A.call_name(c) in ("_meta_swap_gate", "_meta_swap_gate_charge")]
-    chk.require(len(mcalls) == 2, "swap_gate: calls of _meta_swap_gate / _meta_swap_gate_charge not found")
-    flag_names = {A.text(c.args[-1]) for c in mcalls}
-    chk.verdict("W2", (sg, mcalls[0]), "both sign computations receive one flag vector as last argument", True if len(flag_names) == 1 and
-                all(isinstance(c.args[-1], ast.Name) for c in mcalls) else False, "swap_gate does not pass one and the same flag vector to both sign computations")
-    fname = sorted(flag_names)[0]
-    cd = A.cond_def(sg.node, fname)
-    chk.require(cd is not None, f"swap_gate: two-way definition of the flag vector `{fname}` not found")
-    fss_def = [cd[3]]
-    ok = False
-    if cd is not None:
-        class _V:  # same shape as an ast.IfExp
-            test, body, orelse = cd[0], cd[1], cd[2]
-        v = _V
-        t = v.test
-        is_true = isinstance(t, ast.Compare) and len(t.ops) == 1 and isinstance(t.ops[0], (ast.Is, ast.Eq)) and A.text(t.left).endswith(".config.fermionic") \
-            and isinstance(t.comparators[0], ast.Constant) and t.comparators[0].value is True
-        body, other = v.body, v.orelse
-
-        def all_true(b_):
-            if isinstance(b_, ast.BinOp) and isinstance(b_.op, ast.Mult):
-                for tup, cnt in ((b_.left, b_.right), (b_.right, b_.left)):
-                    if isinstance(tup, ast.Tuple) and len(tup.elts) == 1 and isinstance(tup.elts[0], ast.Constant) and tup.elts[0].value is True \
-                            and A.text(cnt) in ("nsym", "a.config.sym.NSYM", f"{sg.params[0]}.config.sym.NSYM"):
-                        return True
-            return False
-        ok = is_true and all_true(body) and A.text(other).endswith(".config.fermionic")
-    chk.verdict("W2", (sg, fss_def[0]), fss_def[0], True if ok else False,
-                "swap_gate: the flag vector must be all-True (one entry per symmetry component) for fermionic=True and the configured tuple otherwise")
+    flag_vector_rule(chk, "W2")
     last = A.returns_of(sco.node)[-1]
     lv = last.value
     ok = isinstance(lv, ast.Call) and A.call_name(lv) == "swap_charges" and len(lv.args) == 3 and A.text(lv.args[2]).endswith(".config.fermionic")
